@@ -231,7 +231,7 @@ where
 fn c18_t_intoiter_vec16() { history_then_observe(ids16!(tok_new, Vec16).into_iter(), 16, true) }
 /// K: fns=Vec32::into_iter,IntoIter::next,IntoIter::next_back,IntoIter::len,IntoIter::size_hint,IntoIter::eq,IntoIter::hash,IntoIter::drop
 /// K: inst=Vec32<Tok> | bound=every history of 33 steps over {next,next_back,len,size_hint,stop}, then == and hash once, then drop; unwind 35
-/// K: asserts=yields match the (front,back) model; len/size_hint = back-front; observers touch exactly the live elements; yielded ids 0 drops, others exactly 1 | cap=1500
+/// K: asserts=yields match the (front,back) model; len/size_hint = back-front; observers touch exactly the live elements; yielded ids 0 drops, others exactly 1 | cap=1200
 #[kani::proof]
 #[kani::unwind(35)]
 fn c18_t_intoiter_vec32() { history_then_observe(ids32!(tok_new, Vec32).into_iter(), 32, false) }
@@ -298,13 +298,13 @@ where
 fn c18_t_observe_vec16() { observe_states(ids16!(tok_new, Vec16).into_iter(), 16, true) }
 /// K: fns=Vec32::into_iter,IntoIter::next,IntoIter::next_back,IntoIter::len,IntoIter::size_hint,IntoIter::eq,IntoIter::hash,IntoIter::drop
 /// K: inst=Vec32<Tok> | bound=every (front,back) state (f front pulls then b back pulls, f+b<=33), observed with == and hash, then drop; unwind 35
-/// K: asserts=yields match the model; observers touch exactly the live elements; yielded ids 0 drops, others exactly 1 | cap=1500
+/// K: asserts=yields match the model; observers touch exactly the live elements; yielded ids 0 drops, others exactly 1 | cap=1200
 #[kani::proof]
 #[kani::unwind(35)]
 fn c18_t_observe_vec32() { observe_states(ids32!(tok_new, Vec32).into_iter(), 32, false) }
 /// K: fns=Vec64::into_iter,IntoIter::next,IntoIter::next_back,IntoIter::len,IntoIter::size_hint,IntoIter::eq,IntoIter::hash,IntoIter::drop
 /// K: inst=Vec64<Tok> | bound=every (front,back) state (f front pulls then b back pulls, f+b<=65), observed with == and hash, then drop; unwind 67
-/// K: asserts=yields match the model; observers touch exactly the live elements; yielded ids 0 drops, others exactly 1 | cap=1500
+/// K: asserts=yields match the model; observers touch exactly the live elements; yielded ids 0 drops, others exactly 1 | cap=1200
 #[kani::proof]
 #[kani::unwind(67)]
 fn c18_t_observe_vec64() { observe_states(ids64!(tok_new, Vec64).into_iter(), 64, false) }
